@@ -12,65 +12,277 @@ import (
 	"strings"
 )
 
-// Facts for property C10 (Initial flight): constants of the root package and literals inside the
-// anchored functions. Syntax only (no type check of the root package: it would pull in uTLS), the
-// constant expressions are evaluated with go/types in the universe scope.
+// Facts for property C10 (Initial flight): constants of the root package and the constants the anchored
+// functions compare / compute with. Syntax only (no type check of the root package: it would pull in uTLS);
+// constant expressions are resolved through the package's own const declarations (function-local or package
+// level, in any file of the package) and evaluated with go/types in the universe scope.
+//
+// The extraction matches SEMANTIC SHAPE, not names of locals or constants, and not whether a block is inline
+// or an extracted helper of the same package:
+//   - maxPN          = the bound the comparison on `.InitPacketNumber` in initialPN (or a same-package helper it
+//                      calls) uses, normalised to "largest value accepted" whatever the operator / operand order
+//   - paddingReserve = the constant subtracted from an expression over `<x>.Length` in the CRYPTO budget
+//                      arithmetic reachable from PackCoalescedPacket through same-package calls
 
 func evalConstExpr(fset *token.FileSet, e ast.Expr) (string, error) {
 	var sb strings.Builder
 	if err := printer.Fprint(&sb, fset, e); err != nil {
 		return "", err
 	}
-	tv, err := types.Eval(fset, nil, token.NoPos, sb.String())
+	return evalConstText(sb.String())
+}
+
+func evalConstText(src string) (string, error) {
+	tv, err := types.Eval(token.NewFileSet(), nil, token.NoPos, src)
 	if err != nil {
-		return "", fmt.Errorf("cannot evaluate %q: %v", sb.String(), err)
+		return "", fmt.Errorf("cannot evaluate %q: %v", src, err)
 	}
 	if tv.Value == nil {
-		return "", fmt.Errorf("%q is not constant", sb.String())
+		return "", fmt.Errorf("%q is not constant", src)
 	}
 	iv := constant.ToInt(tv.Value)
 	if iv.Kind() != constant.Int {
-		return "", fmt.Errorf("%q is not an integer", sb.String())
+		return "", fmt.Errorf("%q is not an integer", src)
 	}
 	return iv.ExactString(), nil
 }
 
-// constIn finds `const name = expr` either at package level (fn == "") or inside function fn.
-func constIn(f *ast.File, fn, name string) ast.Expr {
-	var found ast.Expr
-	visitDecl := func(gd *ast.GenDecl) {
-		if gd.Tok != token.CONST {
-			return
+// rootPkg is the syntax of one package directory: its functions by name and its package-level constants.
+type rootPkg struct {
+	fset   *token.FileSet
+	funcs  map[string][]*ast.FuncDecl // by function / method name (methods of different types may share one)
+	consts map[string]ast.Expr
+}
+
+func constSpecs(gd *ast.GenDecl, into map[string]ast.Expr) {
+	if gd.Tok != token.CONST {
+		return
+	}
+	for _, s := range gd.Specs {
+		vs := s.(*ast.ValueSpec)
+		for i, n := range vs.Names {
+			if i < len(vs.Values) {
+				into[n.Name] = vs.Values[i]
+			}
 		}
-		for _, s := range gd.Specs {
-			vs := s.(*ast.ValueSpec)
-			for i, n := range vs.Names {
-				if n.Name == name && i < len(vs.Values) {
-					found = vs.Values[i]
+	}
+}
+
+func loadRootPkg(c *Ctx, rel string) (*rootPkg, error) {
+	dir := filepath.Join(c.Repo, rel)
+	names, err := filepath.Glob(filepath.Join(dir, "*.go"))
+	if err != nil {
+		return nil, err
+	}
+	rp := &rootPkg{fset: c.Fset, funcs: map[string][]*ast.FuncDecl{}, consts: map[string]ast.Expr{}}
+	for _, fn := range names {
+		if strings.HasSuffix(fn, "_test.go") {
+			continue
+		}
+		f, err := parser.ParseFile(c.Fset, fn, nil, 0)
+		if err != nil {
+			return nil, err
+		}
+		for _, d := range f.Decls {
+			switch x := d.(type) {
+			case *ast.GenDecl:
+				constSpecs(x, rp.consts)
+			case *ast.FuncDecl:
+				if x.Body != nil {
+					rp.funcs[x.Name.Name] = append(rp.funcs[x.Name.Name], x)
 				}
 			}
 		}
 	}
-	for _, d := range f.Decls {
-		switch x := d.(type) {
-		case *ast.GenDecl:
-			if fn == "" {
-				visitDecl(x)
+	return rp, nil
+}
+
+// localConsts are the constants declared inside fd.
+func localConsts(fd *ast.FuncDecl) map[string]ast.Expr {
+	m := map[string]ast.Expr{}
+	ast.Inspect(fd.Body, func(n ast.Node) bool {
+		if ds, ok := n.(*ast.DeclStmt); ok {
+			if gd, ok := ds.Decl.(*ast.GenDecl); ok {
+				constSpecs(gd, m)
 			}
-		case *ast.FuncDecl:
-			if fn != "" && x.Name.Name == fn && x.Body != nil {
-				ast.Inspect(x.Body, func(n ast.Node) bool {
-					if ds, ok := n.(*ast.DeclStmt); ok {
-						if gd, ok := ds.Decl.(*ast.GenDecl); ok {
-							visitDecl(gd)
-						}
-					}
-					return true
-				})
+		}
+		return true
+	})
+	return m
+}
+
+// render prints a constant expression with every identifier that names a constant of fd or of the package
+// replaced by its (recursively rendered) defining expression; ok is false when the expression contains
+// anything that is not constant syntax (a selector, an index, a non-conversion call, an unknown identifier).
+func (rp *rootPkg) render(e ast.Expr, local map[string]ast.Expr, depth int) (string, bool) {
+	if depth > 12 {
+		return "", false
+	}
+	switch x := e.(type) {
+	case *ast.BasicLit:
+		return x.Value, true
+	case *ast.ParenExpr:
+		s, ok := rp.render(x.X, local, depth+1)
+		return "(" + s + ")", ok
+	case *ast.UnaryExpr:
+		s, ok := rp.render(x.X, local, depth+1)
+		return x.Op.String() + s, ok
+	case *ast.BinaryExpr:
+		a, ok1 := rp.render(x.X, local, depth+1)
+		b, ok2 := rp.render(x.Y, local, depth+1)
+		return "(" + a + " " + x.Op.String() + " " + b + ")", ok1 && ok2
+	case *ast.Ident:
+		if d, ok := local[x.Name]; ok {
+			s, ok := rp.render(d, local, depth+1)
+			return "(" + s + ")", ok
+		}
+		if d, ok := rp.consts[x.Name]; ok {
+			s, ok := rp.render(d, nil, depth+1)
+			return "(" + s + ")", ok
+		}
+		return "", false
+	case *ast.CallExpr: // a conversion to a basic integer type
+		if id, ok := x.Fun.(*ast.Ident); ok && len(x.Args) == 1 {
+			switch id.Name {
+			case "int", "int8", "int16", "int32", "int64", "uint", "uint8", "uint16", "uint32", "uint64", "byte":
+				s, ok := rp.render(x.Args[0], local, depth+1)
+				return id.Name + "(" + s + ")", ok
 			}
 		}
 	}
+	return "", false
+}
+
+func (rp *rootPkg) constValue(e ast.Expr, fd *ast.FuncDecl) (string, bool) {
+	src, ok := rp.render(e, localConsts(fd), 0)
+	if !ok {
+		return "", false
+	}
+	v, err := evalConstText(src)
+	return v, err == nil
+}
+
+// reachable returns the function declarations named `anchor` and every same-package function or method they
+// call (by name: `f(..)` or `<recv>.f(..)`), transitively, up to the given depth.
+func (rp *rootPkg) reachable(anchor string, depth int) []*ast.FuncDecl {
+	seen := map[*ast.FuncDecl]bool{}
+	var out []*ast.FuncDecl
+	var visit func(name string, d int)
+	visit = func(name string, d int) {
+		for _, fd := range rp.funcs[name] {
+			if seen[fd] {
+				continue
+			}
+			seen[fd] = true
+			out = append(out, fd)
+			if d == 0 {
+				continue
+			}
+			ast.Inspect(fd.Body, func(n ast.Node) bool {
+				if ce, ok := n.(*ast.CallExpr); ok {
+					switch f := ce.Fun.(type) {
+					case *ast.Ident:
+						visit(f.Name, d-1)
+					case *ast.SelectorExpr:
+						visit(f.Sel.Name, d-1)
+					}
+				}
+				return true
+			})
+		}
+	}
+	visit(anchor, depth)
+	return out
+}
+
+func mentionsSelector(e ast.Expr, sel string) bool {
+	found := false
+	ast.Inspect(e, func(n ast.Node) bool {
+		if se, ok := n.(*ast.SelectorExpr); ok && se.Sel.Name == sel {
+			found = true
+		}
+		return !found
+	})
 	return found
+}
+
+func uniq(vals []string) []string {
+	var out []string
+	for _, v := range vals {
+		dup := false
+		for _, o := range out {
+			dup = dup || o == v
+		}
+		if !dup {
+			out = append(out, v)
+		}
+	}
+	return out
+}
+
+// initialPNBound: the largest InitPacketNumber that initialPN passes through, from the comparison between
+// `.InitPacketNumber` and a constant.
+func (rp *rootPkg) initialPNBound() (string, error) {
+	var vals []string
+	for _, fd := range rp.reachable("initialPN", 2) {
+		ast.Inspect(fd.Body, func(n ast.Node) bool {
+			be, ok := n.(*ast.BinaryExpr)
+			if !ok {
+				return true
+			}
+			op := be.Op
+			field, bound := be.X, be.Y
+			if !mentionsSelector(field, "InitPacketNumber") {
+				// constant on the left: mirror the comparison
+				field, bound = be.Y, be.X
+				op = map[token.Token]token.Token{token.LSS: token.GTR, token.GTR: token.LSS, token.LEQ: token.GEQ, token.GEQ: token.LEQ}[op]
+			}
+			if !mentionsSelector(field, "InitPacketNumber") {
+				return true
+			}
+			v, ok := rp.constValue(bound, fd)
+			if !ok {
+				return true
+			}
+			switch op {
+			case token.GTR, token.LEQ: // x > C rejects / x <= C accepts: C is the largest accepted
+				vals = append(vals, v)
+			case token.GEQ, token.LSS: // x >= C rejects / x < C accepts: C-1 is
+				if m, err := evalConstText("(" + v + ") - 1"); err == nil {
+					vals = append(vals, m)
+				}
+			}
+			return true
+		})
+	}
+	vals = uniq(vals)
+	if len(vals) != 1 {
+		return "", fmt.Errorf("initialPN: expected exactly one comparison of .InitPacketNumber with a constant bound, found bounds %v", vals)
+	}
+	return vals[0], nil
+}
+
+// paddingReserve: the constant subtracted from the `<rf>.Length`-based budget in the code reachable from
+// PackCoalescedPacket (inline or in an extracted helper).
+func (rp *rootPkg) paddingReserve() (string, error) {
+	var vals []string
+	for _, fd := range rp.reachable("PackCoalescedPacket", 2) {
+		ast.Inspect(fd.Body, func(n ast.Node) bool {
+			be, ok := n.(*ast.BinaryExpr)
+			if !ok || be.Op != token.SUB || !mentionsSelector(be.X, "Length") {
+				return true
+			}
+			if v, ok := rp.constValue(be.Y, fd); ok {
+				vals = append(vals, v)
+			}
+			return true
+		})
+	}
+	vals = uniq(vals)
+	if len(vals) != 1 {
+		return "", fmt.Errorf("PackCoalescedPacket: expected exactly one `<..>.Length … - <constant>` budget reserve, found %v", vals)
+	}
+	return vals[0], nil
 }
 
 func init() {
@@ -78,32 +290,33 @@ func init() {
 		parse := func(rel string) (*ast.File, error) {
 			return parser.ParseFile(c.Fset, filepath.Join(c.Repo, rel), nil, 0)
 		}
-		emit := func(rel, fn, goName, leanName string) error {
-			f, err := parse(rel)
-			if err != nil {
-				return err
-			}
-			e := constIn(f, fn, goName)
-			if e == nil {
-				return fmt.Errorf("constant %s not found in %s (func %q)", goName, rel, fn)
-			}
-			v, err := evalConstExpr(c.Fset, e)
-			if err != nil {
-				return err
-			}
-			w.P("/-- %s `%s`%s -/", rel, goName, map[bool]string{true: " in " + fn, false: ""}[fn != ""])
-			w.P("def %s : Int := %s", leanName, v)
-			return nil
-		}
-		if err := emit("u_quic_spec.go", "", "DefaultUDPDatagramMinSize", "DefaultUDPDatagramMinSize"); err != nil {
+		rp, err := loadRootPkg(c, ".")
+		if err != nil {
 			return err
 		}
-		if err := emit("u_packet_packer.go", "PackCoalescedPacket", "paddingReserve", "paddingReserve"); err != nil {
+		// an exported package-level constant: looked up by its (API) name in whichever file declares it
+		udp, ok := rp.consts["DefaultUDPDatagramMinSize"]
+		if !ok {
+			return fmt.Errorf("exported constant DefaultUDPDatagramMinSize not found in the root package")
+		}
+		udpV, ok := rp.constValue(udp, &ast.FuncDecl{Body: &ast.BlockStmt{}})
+		if !ok {
+			return fmt.Errorf("DefaultUDPDatagramMinSize is not an integer constant expression")
+		}
+		w.P("/-- root package `DefaultUDPDatagramMinSize` -/")
+		w.P("def DefaultUDPDatagramMinSize : Int := %s", udpV)
+		pr, err := rp.paddingReserve()
+		if err != nil {
 			return err
 		}
-		if err := emit("u_initial_packet_spec.go", "initialPN", "maxPN", "maxPN"); err != nil {
+		w.P("/-- u_packet_packer.go: bytes the QUICRandomFrames CRYPTO budget of PackCoalescedPacket keeps free for PADDING -/")
+		w.P("def paddingReserve : Int := %s", pr)
+		mp, err := rp.initialPNBound()
+		if err != nil {
 			return err
 		}
+		w.P("/-- u_initial_packet_spec.go initialPN: the largest InitPacketNumber that reaches the wire -/")
+		w.P("def maxPN : Int := %s", mp)
 		// width of the Length varint: the literal passed to quicvarint.AppendWithLen in ExtendedHeader.Append
 		// and the `2 /* length */` summand of GetLength must agree; both are extracted.
 		f, err := parse("internal/wire/extended_header.go")
